@@ -952,6 +952,11 @@ func (c *FCtx) bitAnd(st *State, l, r *Term, k intKind) *Term {
 			return l
 		}
 	}
+	if _, lm := c.maskOf[l]; lm {
+		if _, rm := c.maskOf[r]; !rm {
+			l, r = r, l // AND is commutative: the tracked mask goes to the right
+		}
+	}
 	if s, ok := c.maskOf[r]; ok {
 		// x & ((1<<s)-1) = x mod 2^s for 0 <= s < bits (two's complement), case split over s
 		res := l
@@ -960,7 +965,11 @@ func (c *FCtx) bitAnd(st *State, l, r *Term, k intKind) *Term {
 		}
 		return res
 	}
-	// general case: uninterpreted, with sound facts about two's complement AND
+	// general case: uninterpreted, with sound facts about two's complement AND; the operands are put in a canonical
+	// order so that `a & b` and `b & a` are the same term
+	if l.String() > r.String() {
+		l, r = r, l
+	}
 	res := App("band", SInt, l, r)
 	st.assumeAbout(res, Implies(Eq(l, Num(0)), Eq(res, Num(0))))
 	st.assumeAbout(res, Implies(Eq(r, Num(0)), Eq(res, Num(0))))
@@ -972,6 +981,7 @@ func (c *FCtx) bitAnd(st *State, l, r *Term, k intKind) *Term {
 	for _, b := range []uint{1, 2, 3, 4, 5, 6, 7, 8, 16, 32} {
 		if b < k.bits {
 			st.assumeAbout(res, Implies(Eq(r, Sub(Pow2(b), Num(1))), Eq(res, Mod(l, Pow2(b)))))
+			st.assumeAbout(res, Implies(Eq(l, Sub(Pow2(b), Num(1))), Eq(res, Mod(r, Pow2(b)))))
 		}
 	}
 	st.assumeAbout(res, rangeFact(res, k))
